@@ -34,6 +34,15 @@ def run_one(req):
     except C.SxControl as ex:
         out['exception'] = 'control:' + type(ex).__name__
     except Exception as ex:
+        tb = traceback.extract_tb(sys.exc_info()[2])
+        if not any(f.filename.startswith(REPO + os.sep) for f in tb):
+            out['exception'] = 'control:harness-' + type(ex).__name__
+            out['detail'] = f'{type(ex).__name__}: {ex}'[:300]
+            out['trace'] = traceback.format_exc()[-1500:]
+            out['failures'] = ctx.failures
+            out['observations'] = ctx.observations
+            out['labels'] = ctx.req_labels
+            return out
         out['exception'] = type(ex).__name__
         out['detail'] = f'{type(ex).__name__}: {ex}'[:300]
         out['trace'] = traceback.format_exc()[-1500:]
